@@ -242,6 +242,25 @@ def prop_roundtrip_numeric(size, order):
     return lambda: vc.run_unit('prop', thunk)
 
 
+def numeric_units():
+    """contract refinement of the two numeric array primitives (all widths and byte orders) - also used as foundation
+    units by every check whose exploration applies these contracts"""
+    out = []
+    for size in SIZES:
+        for order in ByteOrder:
+            tag = '%d-%s' % (size, order.name)
+            for sl in (False, True):
+                out.append(Unit('refine/_compose_numeric_array/%s/%s' % (tag, 'symbolic-length' if sl else 'two-values'),
+                                refine_compose(size, order, sl), level='property', clause='contract refinement',
+                                replay=replay_compose(size, order), search=search_compose(size, order),
+                                functions=['ComposerBinary._compose_numeric_array']))
+            for mode in (1, 2, 'sym'):
+                out.append(Unit('refine/_parse_numeric_array/%s/item_num=%s' % (tag, mode),
+                                refine_parse(size, order, mode), level='property', clause='contract refinement',
+                                search=search_parse(size, order), functions=['ParserBinary._parse_numeric_array']))
+    return out
+
+
 def units(tier, seed):
     CP.register()
     common.setup()
